@@ -217,7 +217,7 @@ class C13(Check):
     thorough_examples = 3000
     chunk = 250
     rule = (
-        "[drawn in addition since rounds 13-15: growth template with error codes computed from the request; every ordered pair of methods sharing a validator instance enumerated] "
+        "[round 16: methods with adjacent excluded parameters (context + predicate), first request vs later ones] [drawn in addition since rounds 13-15: growth template with error codes computed from the request; every ordered pair of methods sharing a validator instance enumerated] "
         "cases: (a) histories of 0..12 (quick) / 0..30 (thorough) generated request documents (C01-C04 corpus: valid, failing, batch, "
         "rejected, non-JSON) served by one dispatcher, followed by a probe request whose response document and codes are compared with the "
         "probe served by a fresh dispatcher built from the same spec - also for same-named functions with different annotations and for functions whose signatures compare equal although their defaults differ in type (1 / True / 1.0) that share one PydanticValidator instance and for methods with different per-method arguments that share one JsonSchemaValidator instance; (b) retention: N in {1, 10, 1000} dispatches, a fresh weak-"
